@@ -33,7 +33,7 @@ fn parts_of(sbx: &Sbx, stem: &str) -> Vec<Vec<u8>> {
 
 pub fn sched(ctx: &mut Ctx) {
     let mut rng = rng_for(ctx.seed, "sched");
-    ctx.rule = "trees of 12..60 files whose sizes range from 0 to 3 MB (compressible, zstd/xz so that large files take far longer than small ones) x commands {create, create --solid, create --split, append, update, extract} \
+    ctx.rule = "trees of 12..90 files (one case per run: 230 files) whose sizes range from 0 to 3 MB (compressible, zstd/xz so that large files take far longer than small ones) x commands {create, create --solid, create --split, append, update, extract} \
                 x RAYON_NUM_THREADS {1,2,3,8,32} x repetitions, the thorough tier under CPU contention (busy threads on every core); byte-identity of the outputs across pool sizes, entry order = walker order, identical extracted trees; \
                 the model's schedule-independent order for the shape found in the sources is compared with the observed entry order of every run".into();
     let ncases = if ctx.thorough { 12 } else { 2 };
@@ -58,9 +58,12 @@ pub fn sched(ctx: &mut Ctx) {
     for case in 0..ncases {
         let sbx = Sbx::new("sched", case);
         std::fs::create_dir_all(sbx.path("t/sub")).unwrap();
-        let nfiles = rng.gen_range(12..if ctx.thorough { 60 } else { 24 });
+        // one case in every run has a few hundred files: thresholds on the item count (batching, minimum split
+        // lengths of parallel iterators) are as plausible as thresholds on size
+        let nfiles = if case == 0 { 230 } else { rng.gen_range(12..if ctx.thorough { 90 } else { 24 }) };
         for i in 0..nfiles {
             let size = match i % 6 {
+                0 if nfiles > 100 && i > 12 => rng.gen_range(1..2000),
                 0 => rng.gen_range(1_000_000..3_000_000),
                 1 => 0,
                 2 => rng.gen_range(100_000..400_000),
@@ -134,7 +137,12 @@ pub fn sched(ctx: &mut Ctx) {
                             // extract the archive made by the first `create` run
                             let out = format!("x-{ti}-{rep}");
                             let r = run_pna(&sbx, &sbx.root, &["--quiet", "extract", "o-create-0-0.pna", "--out-dir", out.as_str()], None, 600, &env);
-                            tree = Some(snapshot(&sbx.path(&out)));
+                            // what the property is about: paths, kinds, contents, link targets (not inode numbers or the
+                            // times at which the extraction happened to run)
+                            tree = Some(snapshot(&sbx.path(&out)).into_iter().map(|(p, n)| (p, match n {
+                                crate::cli::Node::File { content, mode, .. } => crate::cli::Node::File { content, mode, mtime: 0, ino: 0, nlink: 1 },
+                                other => other,
+                            })).collect());
                             let _ = std::fs::remove_dir_all(sbx.path(&out));
                             r
                         }
